@@ -47,12 +47,15 @@ UNIVERSES = [
     },
     {
         "name": "U3-three-variants-structs",
-        "decls": "class Bl(T, F) {}\nclass K(K0, K1(Bl, Bl), K2(Bl)) {}\nclass S1(val p: Pair<Bl, K>, val q: Bl) {}\nclass S2(val only: K) {}\n",
+        "decls": "class Bl(T, F) {}\nclass K(K0, K1(Bl, Bl), K2(Bl)) {}\nclass S1(val p: Pair<Bl, K>, val q: Bl) {}\nclass S2(val only: K) {}\nclass W1(Wrap(Bl)) {}\nclass W2(Both(W1, Bl)) {}\n",
         "enums": {"Bl": ("Bl", [("T", []), ("F", [])]),
-                  "K": ("K", [("K0", []), ("K1", ["Bl", "Bl"]), ("K2", ["Bl"])])},
+                  "K": ("K", [("K0", []), ("K1", ["Bl", "Bl"]), ("K2", ["Bl"])]),
+                  # enums with a single variant: a variant pattern over them can be irrefutable
+                  "W1": ("W1", [("Wrap", ["Bl"])]),
+                  "W2": ("W2", [("Both", ["W1", "Bl"])])},
         "structs": {"S1": ("S1", [("p", "PBK"), ("q", "Bl")]), "S2": ("S2", [("only", "K")])},
         "tuples": {"PBK": ("Pair<Bl, K>", ["Bl", "K"]), "TBBB": ("Triple<Bl, Bl, Bl>", ["Bl", "Bl", "Bl"])},
-        "scrutinees": ["K", "S1", "S2", "TBBB"],
+        "scrutinees": ["K", "S1", "S2", "TBBB", "W1", "W2"],
     },
     {
         "name": "U4-recursive-list",
